@@ -52,7 +52,7 @@ def walk_sections(img, L, xml):
 
 
 XML_VALUES = ["0", "1", "-1", "65535", "2147483648", "9223372036854775807", "9223372036854775808", "18446744073709551615", "18446744073709551616",
-              "-9223372036854775808", "-9223372036854775809", "NaN", "inf", "-inf", "1e999", "-1e999", "1e-999", "", "abc", " 1 ", "0x10", "1.5", "+7", "00", "1e3"]
+              "-9223372036854775808", "-9223372036854775809", "NaN", "inf", "-inf", "1e999", "-1e999", "1e-999", "5e-324", "-5e-324", "1e-310", "-0.0", "1.7976931348623157e308", "-1.7976931348623157e308", "", "abc", " 1 ", "0x10", "1.5", "+7", "00", "1e3"]
 
 
 def xml_mutations(xml, r, per_site=None):
@@ -77,6 +77,9 @@ def xml_mutations(xml, r, per_site=None):
         frm = m.group(0)
         nth = text[:m.start()].count(frm)
         vals = XML_VALUES if per_site is None else r.sample(XML_VALUES, per_site)
+        if ty == "Float" and per_site is not None:
+            # the edges of the float format are always tried on float texts (limits, bounds, poses)
+            vals = list(dict.fromkeys(list(vals) + ["5e-324", "-5e-324", "NaN", "inf", "-inf", "1e-310", "1.7976931348623157e308"]))
         for to in vals:
             muts.append((f"xmltext:{tag}={to}", frm, f'<{tag} type="{ty}"{rest}>{to}</{tag}>', nth))
         muts.append((f"xmltype:{tag}", frm, f'<{tag} type="String"{rest}>{val}</{tag}>', nth))
@@ -130,7 +133,7 @@ def generate(bases, seed, tier):
             for nv in vals:
                 singles.append({"base": bi, "name": f"b{bi}:{name}={nv}", "edits": [{"k": "log", "off": off, "bytes": le(nv, w)}], "reseal": True})
         # XML fields and structure
-        xm = xml_mutations(xml, r, per_site=None if tier == "thorough" else 5)
+        xm = xml_mutations(xml, r, per_site=None if tier == "thorough" else 6)
         for nm, frm, to, nth in xm:
             singles.append({"base": bi, "name": f"b{bi}:{nm}#{nth}", "edits": [{"k": "xml", "from": frm, "to": to, "nth": nth}], "reseal": True})
         out += singles
